@@ -5,6 +5,7 @@ import (
 	"go/ast"
 	"go/constant"
 	"go/types"
+	"os"
 	"strings"
 )
 
@@ -82,9 +83,16 @@ func (fc *fctx) args(e *ast.CallExpr) []string {
 	var a []string
 	sig, _ := fc.t.info.TypeOf(e.Fun).(*types.Signature)
 	for i, x := range e.Args {
+		if sig != nil && i < sig.Params().Len() && fc.t.kindOf(sig.Params().At(i).Type()) == kDetails {
+			a = append(a, "tt") // the details of an error answer are not modelled (nor evaluated)
+			continue
+		}
 		v := fc.expr(x)
 		if sig != nil && i < sig.Params().Len() && fc.t.kindOf(sig.Params().At(i).Type()) == kSuiteI && fc.kind(x) == kSuite {
 			v = "(Some " + v + ")" // a value stored in the interface
+		}
+		if sig != nil && i < sig.Params().Len() && fc.t.kindOf(sig.Params().At(i).Type()) == kDetails {
+			v = "tt" // the details of an error answer are not modelled
 		}
 		a = append(a, v)
 	}
@@ -248,6 +256,9 @@ func (fc *fctx) call(e *ast.CallExpr, nres int) string {
 	case "strconv.Atoi":
 		return fc.bind("Val (atoi_go " + fc.args(e)[0] + ")")
 	case "errors.New":
+		if t.mainMode {
+			return "(Some " + fc.expr(e.Args[0]) + ")" // errors are their text
+		}
 		return fc.errorf(e)
 	case "strings.Repeat":
 		return fc.bind("str_repeat " + fc.expr(e.Args[0]) + " " + fc.toZ(e.Args[1]))
@@ -274,11 +285,21 @@ func (fc *fctx) call(e *ast.CallExpr, nres int) string {
 		recv := fc.expr(e.Fun.(*ast.SelectorExpr).X)
 		return "(hmac_new " + recv + " " + fc.args(e)[0] + ")"
 	case "(otp.Suite).Validate", "(otp.Suite).Config", "(otp.Suite).String":
+		if t.restMode {
+			m := e.Fun.(*ast.SelectorExpr).Sel.Name
+			recv := fc.bind("deref " + fc.expr(e.Fun.(*ast.SelectorExpr).X)) // a nil interface: the method call panics
+			return fc.libCall(e, "SuiteConfig."+m, recv)
+		}
 		// interface dispatch: both implementations are translated and shown equal (see iface lemmas)
 		m := e.Fun.(*ast.SelectorExpr).Sel.Name
 		fc.t.ifaceUsed[m] = true
 		recv := fc.bind("deref " + fc.expr(e.Fun.(*ast.SelectorExpr).X)) // a nil interface: the method call panics
 		return fc.bind(fc.callLocal(e, "SuiteConfig."+m, []string{recv}))
+	}
+	if t.restMode {
+		if v, ok := fc.restCall(e, q); ok {
+			return v
+		}
 	}
 	if t.mainMode && strings.HasPrefix(q, "otp.") {
 		return fc.libCall(e, strings.TrimPrefix(q, "otp."))
@@ -297,6 +318,10 @@ func (fc *fctx) call(e *ast.CallExpr, nres int) string {
 				pats = append(pats, r)
 			}
 			for _, ai := range fi.inout {
+				if id, ok := e.Args[ai].(*ast.Ident); ok && fc.kind(id) == kCtx {
+					pats = append(pats, fc.varName(t.info.ObjectOf(id).(*types.Var)))
+					continue
+				}
 				u, ok := e.Args[ai].(*ast.UnaryExpr)
 				if !ok {
 					t.fail(e, "in/out argument that is not &variable")
@@ -467,13 +492,15 @@ func (fc *fctx) sprintf(e *ast.CallExpr) string {
 }
 
 // the library functions the binding calls: their translations in Src / SrcWasm; library errors become their text
-var libFuncs = map[string]struct {
+type libFn struct {
 	coq   string
 	fuel  bool
 	pools []string
 	nres  int
 	err   bool // last result is an error
-}{
+}
+
+var libFuncs = map[string]libFn{
 	"DigitsFromStr":     {"Src.DigitsFromStr", false, nil, 1, false},
 	"AlgorithmFromStr":  {"Src.AlgorithmFromStr", false, nil, 1, false},
 	"DecodeSecret":      {"Src.DecodeSecret", true, nil, 2, true},
@@ -484,8 +511,16 @@ var libFuncs = map[string]struct {
 	"ValidateOTPWasm":   {"SrcWasm.ValidateOTPWasm", true, nil, 2, true},
 }
 
-func (fc *fctx) libCall(e *ast.CallExpr, name string) string {
+func (fc *fctx) libCall(e *ast.CallExpr, name string, recvArgs ...string) string {
 	lf, ok := libFuncs[name]
+	if fc.t.restMode {
+		lf, ok = libFuncsRest[name]
+		if sig, has := fc.t.libSigs[strings.ReplaceAll(name, ".", "_")]; ok && has {
+			lf.fuel, lf.pools = sig.fuel, sig.pools // as Generated/Src.v declares it on this run
+		} else if ok && fc.t.libSigs != nil {
+			fc.t.fail(e, "library function otp.%s has no translation in Generated/Src.v on this run", name)
+		}
+	}
 	if !ok {
 		fc.t.fail(e, "library function otp.%s is not among the translated ones the binding may call", name)
 	}
@@ -494,6 +529,11 @@ func (fc *fctx) libCall(e *ast.CallExpr, name string) string {
 		fc.needsFuel = true
 		a = append(a, "fuel0")
 	}
+	for _, p := range lf.pools {
+		fc.pools[p] = true
+		a = append(a, p)
+	}
+	a = append(a, recvArgs...)
 	a = append(a, fc.args(e)...)
 	v := fc.bind(strings.Join(a, " "))
 	if lf.err {
@@ -502,4 +542,139 @@ func (fc *fctx) libCall(e *ast.CallExpr, name string) string {
 		return w
 	}
 	return v
+}
+
+// readLibSigs: which translated library functions take fuel and which pool oracles, from the headers of Generated/Src.v
+func readLibSigs(path string) map[string]libFn {
+	data, err := os.ReadFile(path)
+	if err != nil {
+		return nil
+	}
+	m := map[string]libFn{}
+	for _, line := range strings.Split(string(data), "\n") {
+		if !strings.HasPrefix(line, "Definition ") || !strings.Contains(line, " : res ") {
+			continue
+		}
+		f := strings.Fields(line)
+		lf := libFn{fuel: strings.Contains(line, "(fuel0 : nat)")}
+		for _, w := range f {
+			if strings.HasPrefix(w, "(junk_") {
+				lf.pools = append(lf.pools, strings.TrimPrefix(w, "("))
+			}
+		}
+		m[f[1]] = lf
+	}
+	return m
+}
+
+// restCall: the calls of the REST layer into fasthttp, encoding/json, net/http, time and the library
+func (fc *fctx) restCall(e *ast.CallExpr, q string) (string, bool) {
+	t := fc.t
+	recvOf := func() ast.Expr { return e.Fun.(*ast.SelectorExpr).X }
+	switch q {
+	case "(fasthttp.RequestCtx).IsPost":
+		return "(ctx_is_post " + fc.expr(recvOf()) + ")", true
+	case "(fasthttp.RequestCtx).IsGet":
+		return "(ctx_is_get " + fc.expr(recvOf()) + ")", true
+	case "(fasthttp.RequestCtx).Path":
+		return "(ctx_path " + fc.expr(recvOf()) + ")", true
+	case "(fasthttp.Args).Peek":
+		if c, ok := recvOf().(*ast.CallExpr); ok {
+			if q2, _ := fc.callee(c); q2 == "(fasthttp.RequestCtx).QueryArgs" {
+				if tv, ok := t.info.Types[e.Args[0]]; ok && tv.Value != nil && constant.StringVal(tv.Value) == "algorithm" {
+					return "(ctx_query_alg " + fc.expr(c.Fun.(*ast.SelectorExpr).X) + ")", true
+				}
+			}
+		}
+		t.fail(e, "query argument other than QueryArgs().Peek(\"algorithm\")")
+	case "http.StatusText":
+		return "(status_text " + fc.toZ(e.Args[0]) + ")", true
+	case "time.Now":
+		if fc.ctxVar == "" {
+			t.fail(e, "time.Now outside a handler")
+		}
+		return "(cx_now " + fc.ctxVar + ")", true
+	case "json.Unmarshal":
+		// json.Unmarshal(ctx.PostBody(), &req) into a zero value: the decoder generated from the struct's tags
+		src, ok := e.Args[0].(*ast.CallExpr)
+		if q2, _ := fc.callee(src); !ok || q2 != "(fasthttp.RequestCtx).PostBody" {
+			t.fail(e, "json.Unmarshal of something else than ctx.PostBody()")
+		}
+		u, ok := e.Args[1].(*ast.UnaryExpr)
+		if !ok {
+			t.fail(e, "json.Unmarshal into something else than &variable")
+		}
+		id, ok := u.X.(*ast.Ident)
+		if !ok || fc.kind(id) != kLocal {
+			t.fail(e, "json.Unmarshal into something else than &variable of a struct of the package")
+		}
+		v := t.info.ObjectOf(id).(*types.Var)
+		if !fc.zeroVars[v] {
+			t.fail(e, "json.Unmarshal into a variable that may not hold the zero value")
+		}
+		n := v.Type().(*types.Named).Obj().Name()
+		if !t.hasDecode[n] {
+			t.fail(e, "no decoder for struct %s", n)
+		}
+		er := fc.tmp()
+		fc.pre = append(fc.pre, "let '("+fc.varName(v)+", "+er+") := unmarshal_"+n+" (ctx_body "+fc.expr(src.Fun.(*ast.SelectorExpr).X)+") in")
+		delete(fc.zeroVars, v)
+		return er, true
+	case "json.Marshal":
+		return "(" + fc.marshal(e, e.Args[0]) + ", @None bytes)", true
+	case "(json.Encoder).Encode":
+		// json.NewEncoder(ctx).Encode(v): writes the printed value as the body
+		c, ok := recvOf().(*ast.CallExpr)
+		if q2, _ := fc.callee(c); !ok || q2 != "json.NewEncoder" || fc.kind(c.Args[0]) != kCtx {
+			t.fail(e, "json encoder on something else than the request context")
+		}
+		id, ok := c.Args[0].(*ast.Ident)
+		if !ok {
+			t.fail(e, "json encoder on something else than the request context variable")
+		}
+		name := fc.varName(t.info.ObjectOf(id).(*types.Var))
+		fc.pre = append(fc.pre, "let "+name+" := ctx_set_body "+name+" "+fc.marshal(e, e.Args[0])+" in")
+		return "(@None bytes)", true
+	case "(otp.Algorithm).String":
+		return fc.libCall(e, "Algorithm.String", fc.expr(recvOf())), true
+	}
+	if strings.HasPrefix(q, "(api.") || strings.HasPrefix(q, "("+t.pkg.Name+".") {
+		// a method of a struct of the package (pointer receivers are read-only: checked where they are translated)
+		name := strings.Replace(strings.TrimPrefix(q, "("+t.pkg.Name+"."), ").", ".", 1)
+		return fc.bind(fc.callLocal(e, name, append([]string{fc.expr(recvOf())}, fc.args(e)...))), true
+	}
+	// h()(ctx): a handler constructor applied, then called
+	if inner, ok := e.Fun.(*ast.CallExpr); ok && len(inner.Args) == 0 && len(e.Args) == 1 && fc.kind(e.Args[0]) == kCtx {
+		if q2, _ := fc.callee(inner); strings.HasPrefix(q2, "self.") {
+			id, ok := e.Args[0].(*ast.Ident)
+			if !ok {
+				t.fail(e, "handler applied to something else than the context variable")
+			}
+			name := fc.varName(t.info.ObjectOf(id).(*types.Var))
+			v := fc.bind(fc.callLocal(e, strings.TrimPrefix(q2, "self."), []string{name}))
+			fc.pre = append(fc.pre, "let "+name+" := "+v+" in")
+			return "tt", true
+		}
+		if exprText(inner.Fun) == "fastHttpSwagger.WrapHandler" {
+			id, ok := e.Args[0].(*ast.Ident)
+			if !ok {
+				t.fail(e, "handler applied to something else than the context variable")
+			}
+			name := fc.varName(t.info.ObjectOf(id).(*types.Var))
+			fc.pre = append(fc.pre, "let "+name+" := ctx_other "+name+" in")
+			return "tt", true
+		}
+	}
+	return "", false
+}
+
+func (fc *fctx) marshal(n ast.Node, x ast.Expr) string {
+	if fc.kind(x) != kLocal {
+		fc.t.fail(n, "json encoding of %s", fc.typeOf(x))
+	}
+	name := fc.typeOf(x).(*types.Named).Obj().Name()
+	if !fc.t.hasMarshal[name] {
+		fc.t.fail(n, "no printer for struct %s", name)
+	}
+	return "(marshal_" + name + " " + fc.expr(x) + ")"
 }
